@@ -1,7 +1,7 @@
 (* C10 — All input back-ends behave identically.  (theorems: Proofs/InputRefine.v) *)
 From Coq Require Import List NArith Bool.
 Import ListNotations.
-Require Import Parser SBase SBuf InputRefine.
+Require Import Parser SBase SFetch Pipe SBuf InputRefine ScanWP ScanSafeTop.
 Open Scope nat_scope.
 
 (* Per-operation refinement between the buffered input of any capacity and the string input: related states
@@ -14,3 +14,10 @@ Print Assumptions C10_peek_nth.
 Theorem C10_skip : forall cap s b, Rel s b -> b_buf b <> [] -> Rel (skip1 str_ops s) (skip1 (buf_ops cap) b).
 Proof. exact rel_skip1. Qed.
 Print Assumptions C10_skip.
+
+(* Every capacity >= 8 honours the scanner's lookahead discipline: on no input does the buffered instance hit a
+   contract violation (this is what makes "any input source that honours the input contract" meaningful). *)
+Theorem C10_lookahead_discipline : forall cap, (8 <= cap)%nat -> forall input n,
+  snd (run_buf cap input) <> PPanic n.
+Proof. exact pipeline_never_panics_buffered. Qed.
+Print Assumptions C10_lookahead_discipline.
